@@ -561,8 +561,10 @@ func (rn *runner) exec(batch []*pendEntry) {
 	items := []term{}
 	var results term
 	all := []term{}
+	txns := []term{}
 	failed := false
 	for i, e := range batch {
+		txns = append(txns, TxnT(e.sqe.Submission.Store.Transaction))
 		cqe := cqes[i]
 		lose := false
 		hints := []term{}
@@ -606,7 +608,7 @@ func (rn *runner) exec(batch []*pendEntry) {
 	}
 	rn.stat("exec")
 	rn.stat(fmt.Sprintf("batch:%d", len(batch)))
-	rn.tr.Events = append(rn.tr.Events, event{D: C("DExec", L(items...)), O: []term{C("OExec", results, snap.term())}})
+	rn.tr.Events = append(rn.tr.Events, event{D: C("DExec", L(items...)), O: []term{C("OExec", L(txns...), results, snap.term())}})
 }
 
 func (rn *runner) crash() {
